@@ -4,7 +4,7 @@ ID=$1
 W=/tmp/wt_$ID; S=/tmp/ref_$ID
 [ -f $S/patch.diff ] && [ -f $S/clean.diff ] || { echo "no patch/clean for $ID"; exit 1; }
 for which in clean patch; do
-  cd $W; git reset -q; git checkout -q -- .; git clean -fdq persim; git apply $S/$which.diff || { echo "$which.diff does not apply"; continue; }
+  cd $W; git reset -q; git checkout -q -- .; git clean -fdq persim; git apply $S/$which.diff 2>/dev/null || patch -p1 -s -i $S/$which.diff >/dev/null 2>&1 || { echo "$which.diff does not apply"; continue; }
   echo "== $ID $which.diff ($(grep -c '^[+-][^+-]' $S/$which.diff) lines; $(grep '^+++ ' $S/$which.diff | sed 's/+++ b\///' | tr '\n' ' '))"
   if [ "$2" != "--no-suite" ]; then
     echo -n "   suite: "; PYTHONPATH=$W /venv/bin/python -m pytest -q -p no:cacheprovider --timeout=900 2>&1 | tail -1
